@@ -4,11 +4,83 @@ package server
 
 import (
 	"io"
+	"time"
 
 	"github.com/gorilla/websocket"
+
+	"github.com/DrmagicE/gmqtt"
 )
 
 // VerifNewWsConn wraps an upgraded websocket connection exactly as wsHandler does.
 func VerifNewWsConn(c *websocket.Conn) io.ReadWriteCloser {
 	return &wsConn{Conn: c.UnderlyingConn(), c: c}
+}
+
+// VerifServer gives the harness access to the unexported broker internals it needs to
+// let time pass without sleeping and to look at the session tables.
+type VerifServer interface {
+	VerifAdvance(d time.Duration)
+	VerifExpireCheck()
+	VerifOnline() []string
+	VerifOffline() []string
+	VerifPendingWills() []string
+}
+
+var _ VerifServer = (*server)(nil)
+
+type verifShifter interface{ VerifShift(d time.Duration) }
+
+// VerifAdvance makes every stored deadline and timestamp d older: session expiry
+// deadlines, session connect times and the timestamps of queued messages.
+// (Delayed-will timers are real timers and are not affected.)
+func (srv *server) VerifAdvance(d time.Duration) {
+	srv.mu.Lock()
+	defer srv.mu.Unlock()
+	for id, t := range srv.offlineClients {
+		srv.offlineClients[id] = t.Add(-d)
+	}
+	var sts []*gmqtt.Session
+	_ = srv.sessionStore.Iterate(func(s *gmqtt.Session) bool {
+		sts = append(sts, s)
+		return true
+	})
+	for _, s := range sts {
+		s.ConnectedAt = s.ConnectedAt.Add(-d)
+		_ = srv.sessionStore.Set(s)
+	}
+	for _, q := range srv.queueStore {
+		if s, ok := q.(verifShifter); ok {
+			s.VerifShift(d)
+		}
+	}
+}
+
+// VerifExpireCheck runs one round of the session expiry loop.
+func (srv *server) VerifExpireCheck() { srv.sessionExpireCheck() }
+
+func (srv *server) VerifOnline() (ids []string) {
+	srv.mu.Lock()
+	defer srv.mu.Unlock()
+	for id := range srv.clients {
+		ids = append(ids, id)
+	}
+	return
+}
+
+func (srv *server) VerifOffline() (ids []string) {
+	srv.mu.Lock()
+	defer srv.mu.Unlock()
+	for id := range srv.offlineClients {
+		ids = append(ids, id)
+	}
+	return
+}
+
+func (srv *server) VerifPendingWills() (ids []string) {
+	srv.mu.Lock()
+	defer srv.mu.Unlock()
+	for id := range srv.willMessage {
+		ids = append(ids, id)
+	}
+	return
 }
